@@ -217,7 +217,12 @@ def variances(ctx):
                 if name == "salmon_lice":
                     case["age"] = np.full(N, 50.0)
             elif name == "shrimp":
-                case["vm"] = [K] * 5; case["vs"] = [0.0] * 5; case["stage"] = np.full(N, 2.0); case["q"] = np.full(N, 0.5)
+                # a distinct coefficient per larval stage; the coefficient of a larva is that of the stage it is IN
+                # (integer part of the fractional stage, stages >= 5 share the last one)
+                stg = ctx.rng.choice([1.0, 1.75, 2.0, 2.6, 3.9, 4.5, 4.8, 5.0, 5.5])
+                case["vm"] = [K * f for f in (1.0, 2.0, 4.0, 8.0, 16.0)]; case["vs"] = [0.0] * 5
+                case["stage"] = np.full(N, stg); case["q"] = np.full(N, 0.5)
+                case["D"] = case["vm"][min(5, int(stg)) - 1]
             res = runner(case, ctx.sub_seed(), None, None)
             Kuse = case.get("D", K)
             disp = res["after"]["z"] - case["z"]
@@ -266,7 +271,7 @@ def run(ctx):
     ladis_corr(ctx, drv)
     # scheme pinned bit-exactly (LaBolle predictor/corrector, reflections, sub-steps)
     if not getattr(ctx, "widened", False):
-        c05.run(ctx, modules=["chemicals", "sedimentation", "mine", "sandeel", "lunar_eel"], oracle=lambda *a: None)
+        c05.run(ctx, modules=None, oracle=lambda *a: None)
 
 
 def replay(payload):
